@@ -148,6 +148,36 @@ def specialise_default(facts, tgt, ce):
             changed = True
         else:
             blocks.append(b)
+    # closures created in the provided body call the trait's methods on `Self` as well: they get
+    # specialised copies (registered as bodies of their own) and the aggregates point at those
+    for bi_, b in enumerate(blocks):
+        new_stmts = None
+        for si_, st_ in enumerate(b["stmts"]):
+            rv = st_.get("rv") if st_["k"] == "assign" else None
+            if not (rv and rv["k"] == "aggregate" and rv.get("agg") == "closure"):
+                continue
+            cb = facts.raw_bodies.get(rv["closure"])
+            if cb is None or "@" in rv["closure"]:
+                continue
+            fake_owner = dict(cb, owner=dict(cb.get("owner") or {}, in_trait=tgt["owner"]["in_trait"]))
+            sc = specialise_default(facts, fake_owner, ce)
+            if sc is fake_owner:
+                continue
+            sc = dict(sc)
+            sc["owner"] = cb.get("owner")
+            facts.raw_bodies[sc["key"]] = sc
+            if new_stmts is None:
+                new_stmts = list(b["stmts"])
+            nrv = dict(rv)
+            nrv["closure"] = sc["key"]
+            nst = dict(st_)
+            nst["rv"] = nrv
+            new_stmts[si_] = nst
+            changed = True
+        if new_stmts is not None:
+            nb = dict(b)
+            nb["stmts"] = new_stmts
+            blocks[bi_] = nb
     if not changed:
         return tgt
     out = dict(tgt)
@@ -515,6 +545,14 @@ def inline_closure_calls(facts, d, memo, rounds=2):
 def inline_all(facts):
     memo = {}
     out = {}
-    for key, d in facts.raw_bodies.items():
+    for key, d in list(facts.raw_bodies.items()):
         out[key] = thread_jumps(inline_closure_calls(facts, inline_body(facts, d, memo), memo))
+    # closures of provided trait methods that were specialised for a receiver type on the way
+    # (specialise_default registers them in raw_bodies under their own keys)
+    for _round in range(4):
+        new = [k for k in facts.raw_bodies if k not in out]
+        if not new:
+            break
+        for key in new:
+            out[key] = thread_jumps(inline_closure_calls(facts, inline_body(facts, facts.raw_bodies[key], memo), memo))
     return out
